@@ -25,6 +25,7 @@ import (
 	"github.com/jmeaster30/vore/libvore/ast"
 	"github.com/jmeaster30/vore/libvore/bytecode"
 	"github.com/jmeaster30/vore/libvore/engine"
+	"github.com/jmeaster30/vore/libvore/files"
 )
 
 type Case map[string]any
@@ -267,7 +268,61 @@ func opHist(c Case, r Result) {
 	r["bc_after"] = bcSexp(cp1.bc)
 }
 
+// reader: {"content_hex":..., "reads":[[off,len],...]}: the same reads through files.ReaderFromFile
+// (buffered file) and files.ReaderFromString.
+func opReader(c Case, r Result) {
+	content := bytesArg(c, "content")
+	dir, err := os.MkdirTemp("", "vh-reader-")
+	if err != nil {
+		panic(err)
+	}
+	defer os.RemoveAll(dir)
+	p := filepath.Join(dir, "f.bin")
+	if err := os.WriteFile(p, []byte(content), 0o644); err != nil {
+		panic(err)
+	}
+	fr := files.ReaderFromFile(p)
+	sr := files.ReaderFromString(content)
+	fouts, souts := []string{}, []string{}
+	for _, rd := range c["reads"].([]any) {
+		pair := rd.([]any)
+		off, n := int(pair[0].(float64)), int(pair[1].(float64))
+		fouts = append(fouts, hx(fr.ReadAt(n, off)))
+		souts = append(souts, hx(sr.ReadAt(n, off)))
+		r["file"] = fouts
+		r["string"] = souts
+	}
+	r["file"] = fouts
+	r["string"] = souts
+	r["size_file"] = fr.Size()
+	r["size_string"] = sr.Size()
+	fr.Close()
+}
+
+// runboth: RunFiles(NOTHING) on a file vs Run on the same bytes
+func opRunBoth(c Case, r Result) {
+	src := bytesArg(c, "src")
+	cp := compileSrc(src, r)
+	if cp == nil {
+		return
+	}
+	content := bytesArg(c, "content")
+	dir, err := os.MkdirTemp("", "vh-both-")
+	if err != nil {
+		panic(err)
+	}
+	defer os.RemoveAll(dir)
+	p := filepath.Join(dir, "f.txt")
+	if err := os.WriteFile(p, []byte(content), 0o644); err != nil {
+		panic(err)
+	}
+	r["mem"] = matchesSexp(engine.Run(cp.bc, content))
+	r["file"] = matchesSexp(engine.RunFiles(cp.bc, []string{p}, engine.NOTHING, false))
+}
+
 var ops = map[string]func(Case, Result){
+	"reader":  opReader,
+	"runboth": opRunBoth,
 	"hist":  opHist,
 	"e2e":   opE2E,
 	"files": opFiles,
